@@ -392,8 +392,8 @@ theorem createPlan_wf {inp vals : Input} {dt : TypeArg ⊕ DType} {n : Nat} (hwf
       · split at h
         · simp at h
         · simp at h; rw [← h.2.2]
-          simp only [Input.WF] at hwf ⊢
-          simp [hwf]
+          simp only [Input.WF, Bool.and_eq_true] at hwf
+          simp [Input.WF, hwf.1]
   | ndarray dt' shape data =>
     simp only [createPlan] at h
     split at h
